@@ -44,6 +44,75 @@ def nested_zip_bytes():
     return b.getvalue().decode("latin-1")
 
 
+def zip_bytes(members):
+    """the archive made of `members` (same conventions as implops write_zip), as a latin-1 str"""
+    import io
+    import stat
+    import warnings
+    import zipfile
+
+    class RawInfo(zipfile.ZipInfo):
+        def _encodeFilenameFlags(self):
+            return self.rawname, self.flag_bits & ~0x800
+
+    b = io.BytesIO()
+    with zipfile.ZipFile(b, "w") as z:
+        for m in members:
+            raw = m["raw"].encode("latin-1")
+            if m.get("utf8flag"):
+                zi = zipfile.ZipInfo(raw.decode("utf-8"), date_time=(2021, 3, 4, 5, 6, 8))
+            else:
+                zi = RawInfo(raw.decode("cp437"), date_time=(2021, 3, 4, 5, 6, 8))
+                zi.rawname = raw
+            if m["kind"] == "link":
+                zi.external_attr = (stat.S_IFLNK | 0o777) << 16
+                data = m["dest"].encode("latin-1")
+            elif m["kind"] == "dir":
+                zi.external_attr = ((stat.S_IFDIR | 0o755) << 16) | 0x10
+                data = b""
+            else:
+                zi.external_attr = (stat.S_IFREG | m.get("mode", 0o644)) << 16
+                data = m.get("data", "").encode("latin-1")
+            zi.compress_type = zipfile.ZIP_DEFLATED if m.get("deflate") else zipfile.ZIP_STORED
+            with warnings.catch_warnings():
+                warnings.simplefilter("ignore")
+                z.writestr(zi, data)
+    return b.getvalue().decode("latin-1")
+
+
+def flatten(tree):
+    """the tree as it looks when every archive stored inside it is unpacked in place (as a directory of
+    the archive's own name)"""
+    out = []
+    for e in tree:
+        if e["kind"] == "archive":
+            out.append({"path": e["path"], "kind": "dir", "explicit": False, "flag": e.get("flag", False)})
+            for x in flatten(e["tree"]):
+                out.append(dict(x, path=e["path"] + "/" + x["path"]))
+        else:
+            out.append(e)
+    return out
+
+
+def inner_tree(rng, depth):
+    """a small tree to be stored as an archive inside another one: links stay inside it"""
+    import posixpath
+    sub = gen_tree(rng, ("symlinks",) + (("nested",) if depth < 2 else ()), depth=depth + 1)
+    keep = []
+    for e in sub:
+        if e["kind"] == "link":
+            d = e["dest"]
+            if d.startswith("/"):
+                continue
+            n = posixpath.normpath(posixpath.join(posixpath.dirname(e["path"]), d))
+            if n.startswith(".."):
+                continue
+        keep.append(e)
+    big = [e for e in keep if e["kind"] == "archive"]
+    small = [e for e in keep if e["kind"] != "archive"][:14]
+    return small + big[:1]
+
+
 def shorten(name):
     """a name that is a proper string prefix of `name` (None if too short)"""
     stem = name
@@ -81,7 +150,7 @@ def join(d, n):
     return n if d == "" else d + "/" + n
 
 
-def gen_tree(rng, feats=None):
+def gen_tree(rng, feats=None, depth=0):
     """A random well-formed tree.  feats: set of feature names forced on."""
     feats = set(feats or ())
     ents = []
@@ -138,7 +207,8 @@ def gen_tree(rng, feats=None):
         if rng.random() < 0.25 or ("raw" in feats and d == ""):
             chosen.append(rng.choice(RAW_FILES))
         if "zipnames" in feats or rng.random() < 0.2:
-            chosen.append(rng.choice([("notes.zip", "a text file with an archive-like name\n"), ("inner.zip", nested_zip_bytes())]))
+            chosen.append(rng.choice([("notes.zip", "a text file with an archive-like name\n")] +
+                                     ([] if "nested" in feats or depth > 0 else [("inner.zip", nested_zip_bytes())])))
         if ("prefixes" in feats or rng.random() < 0.2) and chosen:
             n0, _ = chosen[0]
             if shorten(n0) and all(shorten(n0) != x for x, _ in chosen):
@@ -216,6 +286,22 @@ def gen_tree(rng, feats=None):
             for s in ("new", "cur", "tmp"):
                 add({"path": join(md, s), "kind": "dir", "explicit": True, "flag": False})
             add({"path": join(md, "new/1.msg"), "kind": "file", "data": MAILMSG, "flag": False})
+    if "nested" in feats:
+        # archives stored inside the archive (browsable like directories), at the top and further down,
+        # one of them next to a directory that has the same name without the suffix
+        spots = [("", "inner.zip")]
+        if realdirs_for_nested(dirs):
+            spots.append((rng.choice(realdirs_for_nested(dirs)), "inner2.zip"))
+        for d, n in spots:
+            p = join(d, n)
+            if any(e["path"] == p for e in ents):
+                continue
+            add({"path": p, "kind": "archive", "tree": inner_tree(rng, depth), "flag": False})
+            twin = join(d, n[:-4])
+            if twin not in dirs and not any(e["path"] == twin for e in ents):
+                dirs.append(twin)
+                add({"path": twin, "kind": "dir", "explicit": True, "flag": False})
+                add({"path": join(twin, "twin.txt"), "kind": "file", "data": "a directory named like the archive\n", "flag": False})
     # links
     files = [e["path"] for e in ents if e["kind"] == "file" and not e["path"].split("/")[-1].startswith(".")
              and not e["path"].endswith(".abstract")]
@@ -304,6 +390,10 @@ def gen_tree(rng, feats=None):
     return ents
 
 
+def realdirs_for_nested(dirs):
+    return [d for d in dirs if d and all(ord(c) < 128 for c in d) and ".." not in d]
+
+
 def members_of(tree, rng=None, order="tree"):
     """tree -> zip member list (dicts for implops write_zip).  order: tree | shuffle | links_first | dirs_last"""
     ents = list(tree)
@@ -320,6 +410,9 @@ def members_of(tree, rng=None, order="tree"):
                 out.append({"raw": to_raw(e["path"] + "/"), "utf8flag": bool(e.get("flag")), "kind": "dir"})
         elif e["kind"] == "link":
             out.append({"raw": to_raw(e["path"]), "utf8flag": bool(e.get("flag")), "kind": "link", "dest": to_raw(e["dest"])})
+        elif e["kind"] == "archive":
+            out.append({"raw": to_raw(e["path"]), "utf8flag": False, "kind": "file",
+                        "data": zip_bytes(members_of(e["tree"])), "mode": 0o644, "deflate": False})
         else:
             out.append({"raw": to_raw(e["path"]), "utf8flag": bool(e.get("flag")), "kind": "file", "data": e["data"],
                         "mode": e.get("mode", 0o644), "deflate": len(e["data"]) > 100 and not e.get("store")})
@@ -338,7 +431,7 @@ def members_of(tree, rng=None, order="tree"):
 def extracted_of(tree):
     """tree -> entry list for impl_driver.build_tree (paths relative to the tree's root)"""
     out = []
-    for e in tree:
+    for e in flatten(tree):
         if e["kind"] == "dir":
             out.append({"path": to_raw(e["path"]), "kind": "dir"})
         elif e["kind"] == "link":
@@ -348,8 +441,24 @@ def extracted_of(tree):
     return out
 
 
+def staged_of(tree):
+    """what zip(1) is run on: like extracted_of, but an archive stored in the tree stays one file"""
+    out = []
+    for e in tree:
+        if e["kind"] == "dir":
+            out.append({"path": to_raw(e["path"]), "kind": "dir"})
+        elif e["kind"] == "link":
+            out.append({"path": to_raw(e["path"]), "kind": "symlink", "target": to_raw(e["dest"])})
+        elif e["kind"] == "archive":
+            out.append({"path": to_raw(e["path"]), "kind": "file", "data": zip_bytes(members_of(e["tree"]))})
+        else:
+            out.append({"path": to_raw(e["path"]), "kind": "file", "data": e["data"], "mode": e.get("mode", 0o644)})
+    return out
+
+
 def tree_selectors(tree, rng, extra=6):
     """member-relative paths worth asking for: every entry, paths through links, missing ones, odd spellings"""
+    tree = flatten(tree)
     paths = [""]
     for e in tree:
         paths.append(e["path"])
